@@ -186,6 +186,10 @@ func respell(t *rapid.T) (*gen.Style, []string, bool) {
 			}
 		}
 	}
+	if st.JoinLines {
+		// joining lines only works where nothing else is written at the ends of lines
+		st.Comments, st.EmptyAnn, st.AutoNotes = 0, 0, 0
+	}
 	sort.Strings(names)
 	return st, names, permute
 }
@@ -217,6 +221,10 @@ func TestSchemaRespelling(t *testing.T) {
 		var model *ref.SNode
 		var docs []*ref.Value
 		fam := rapid.IntRange(0, 3).Draw(t, "family")
+		sparse := false
+		if st.JoinLines && rapid.Bool().Draw(t, "sparseForJoin") {
+			fam, sparse = 2, true // shapes with few annotations, so that lines can be shared
+		}
 		switch fam {
 		case 0, 1:
 			model = gen.RuledTree(t, rapid.IntRange(1, 3).Draw(t, "depth"), false, "m")
@@ -239,7 +247,7 @@ func TestSchemaRespelling(t *testing.T) {
 				}
 			}
 		case 2:
-			model = gen.ShapeSchema(t, gen.ShapeOpts{Depth: 3, Width: 3}, "m")
+			model = gen.ShapeSchema(t, gen.ShapeOpts{Depth: 3, Width: 3, Sparse: sparse}, "m")
 			c = SchemaCase{A: lib.Spec{Schema: string(gen.PrintSchema(model, nil))}, B: lib.Spec{Schema: string(gen.PrintSchema(model, st))}}
 			for i := 0; i < 6; i++ {
 				d := gen.ShapeInstance(t, model, false, "inst")
@@ -264,6 +272,9 @@ func TestSchemaRespelling(t *testing.T) {
 			c.Docs = append(c.Docs, string(gen.Print(d, nil)))
 		}
 		c.Rewrite, c.Permute = names, permute
+		run.LabelN("lines-shared-by-two-properties", gen.Joins)
+		run.LabelN("one-line-array-then-container-on-the-same-line", gen.JoinsArrayThenContainer)
+		gen.Joins, gen.JoinsArrayThenContainer = 0, 0
 		accepted := checkSchema(t, c)
 		nt := len(names) >= 2 && hasAnnotation(model)
 		run.Eval(chkSchema, nt, fmt.Sprint(c.A), fmt.Sprint(c.B))
